@@ -17,10 +17,11 @@ Level: translation validation.  What is machine-checked here:
 
 * `well_typed_never_stuck_partial` / `well_typed_call_never_stuck_partial`: TYPE SOUNDNESS of the
   source semantics for the first-order fragment (literals, `let`, `if`, `&&`/`||`, strict operators,
-  tuples, lists, user data types with field access, recursive top-level functions, `fail`/`todo`,
+  tuples, lists, user data types with field access, `Data` up- and down-casts (a down-cast aborts or
+  yields a value of the requested type: `fromData_ty`), recursive top-level functions, `fail`/`todo`,
   `expect` and `when` over constructor / list / tuple / literal patterns, `trace`, `?`): a well-typed expression of a well-typed program is never `stuck` —
   for every fuel, tracing mode and well-typed arguments — and its value has its type.  `_partial`:
-  closures / higher-order application and `Data` casts are outside the typed fragment.
+  closures / higher-order application are outside the typed fragment.
 
 Not proved: type soundness of the real checker and code generator for all programs (that part is the
 per-program validation of `c06-classify`).
@@ -109,10 +110,12 @@ def factBody : Expr :=
 def areaBody : Expr :=
   .when (.var 0) [(.con 0 [.var 1], .bin .mul (.var 1) (.var 1)),
                   (.con 1 [.var 1, .var 2], .bin .mul (.var 1) (.var 2))]
+/-- `fn cast(x: Int) -> Int { let d: Data = x  expect y: Int = d  y }` -/
+def castBody : Expr := .un (.fromData .int) (.un .toData (.var 0))
 def adts : Adts := [[[.int], [.int, .int]]]
 def prog : Mini.Program :=
-  { adts := adts, fns := [([0], sumBody), ([0], factBody), ([0], areaBody)], lams := [] }
-def sig : Sig := [([.list .int], .int), ([.int], .int), ([.adt 0], .int)]
+  { adts := adts, fns := [([0], sumBody), ([0], factBody), ([0], areaBody), ([0], castBody)], lams := [] }
+def sig : Sig := [([.list .int], .int), ([.int], .int), ([.adt 0], .int), ([.int], .int)]
 
 theorem sum_typed : HasTy adts sig [(0, .list .int)] sumBody .int := by
   refine .when _ _ _ (.list .int) _ (.var _ _ _ rfl) ?_ ?_ ?_
@@ -181,12 +184,17 @@ theorem prog_typed : ProgTy sig prog := by
   | 2 => simp only [sig, List.getElem?_cons_succ, List.getElem?_cons_zero, Option.some.injEq, Prod.mk.injEq] at h
          obtain ⟨rfl, rfl⟩ := h
          exact ⟨[0], areaBody, rfl, rfl, area_typed⟩
-  | n + 3 => simp [sig] at h
+  | 3 => simp only [sig, List.getElem?_cons_succ, List.getElem?_cons_zero, Option.some.injEq, Prod.mk.injEq] at h
+         obtain ⟨rfl, rfl⟩ := h
+         exact ⟨[0], castBody, rfl, rfl,
+           .un _ _ _ .data _ (.un _ _ _ .int _ (.var _ _ _ rfl) (.toData _)) (.fromData _)⟩
+  | n + 4 => simp [sig] at h
 
 /-- … and the conclusion is not about an empty set of runs: `sum([1, 2, 3]) = 6`, `fact(5) = 120` -/
 example : result (runCall prog .verbose 20 0 [.list [.int 1, .int 2, .int 3]]) = .val (.int 6) := by rfl
 example : result (runCall prog .verbose 20 1 [.int 5]) = .val (.int 120) := by rfl
 example : result (runCall prog .verbose 20 2 [.con 1 [.int 3, .int 4]]) = .val (.int 12) := by rfl
+example : result (runCall prog .verbose 20 3 [.int 7]) = .val (.int 7) := by rfl
 end Example
 
 end AikenVerif.C06
